@@ -17,13 +17,20 @@ operator endpoint /modifyRepDBMasterPt (ReadAnyReplica).
 Verdicts come only from the real cluster: a history TLC rejects (stale / missing / invented value while a majority of
 caught-up replicas is up, or a write / query that is not served within its retry budget), a store process that dies by
 itself. TLC trouble, build trouble, a cluster that does not boot are infrastructure (exit 2)."""
-import json, os, random, shutil, threading, time, urllib.parse, urllib.request, urllib.error, concurrent.futures as cf
+import json, os, random, re, shutil, threading, time, urllib.parse, urllib.request, urllib.error, concurrent.futures as cf
 import vlib, vcluster
 
 PROP = "C05"
 DB = "db0"
-DEVS = {'{"ack_before_quorum"}': "AckedOnQuorum", '{"truncate_past_down_member"}': "TruncationSafe",
-        '{"restart_skips_replay"}': "ReadAnyReplica", '{"ack_ignores_apply_error"}': "ReadAnyReplica"}
+IMPL = '{"truncate_past_down_member", "outage_timer_per_group"}'         # as implemented: F-C05-1 + F-C05-2
+SEED = '{"truncate_past_down_member", "outage_timer_per_group", "outage_timer_not_reset"}'
+# deviation -> (what TLC must report, constants that differ from Replication.exh.quick.cfg)
+DEVS = {'{"ack_before_quorum"}': ("AckedOnQuorum", {}), '{"truncate_past_down_member"}': ("TruncationSafe", {}),
+        '{"restart_skips_replay"}': ("ReadAnyReplica", {}), '{"ack_ignores_apply_error"}': ("ReadAnyReplica", {}),
+        IMPL: ("ForcedCleanOnlyAfterTolerate", {"MaxCrashes": 2, "MaxEntries": 2}),
+        SEED: ("HealthyTickResets", {"MaxCrashes": 2, "MaxEntries": 2})}
+TICK = vcluster.Cluster.TICK_S   # period of deleteEntryLogPeriodically (time.NewTicker(time.Minute), not configurable)
+os.environ.setdefault("JAVA_TOOL_OPTIONS", "-Xmx4g")
 T0 = 1700000000          # base timestamp (s) of every point: one shard group, one raft entry per batch
 WRITE_BUDGET = 120.0     # s: a write retried this long with a majority up must have been acknowledged
 QUERY_BUDGET = 120.0
@@ -36,20 +43,43 @@ SERIES = {1: ["s1", "t1"], 2: ["s2", "t2"], 3: ["s3", "t3"]}     # model cell ->
 
 def mode_a(tier):
     cfg = "Replication.exh.quick.cfg" if tier == "quick" else "Replication.exh.thorough.cfg"
-    r = vlib.run_tlc("ReplicationMC", cfg, timeout=900 if tier == "quick" else 1700, workers=max(4, vlib.NCPU // 2))
+    # side by side: the design model, and the as-implemented model of F-C05-1 alone (forced clean exists, timer per member):
+    # everything that F-C05-1 does not break, and loss only for members away for longer than TolerateTime
+    with cf.ThreadPoolExecutor(2) as ex:
+        f1 = ex.submit(vlib.run_tlc, "ReplicationMC", cfg, timeout=1200 if tier == "quick" else 3000, workers=max(4, vlib.NCPU // 2))
+        f2 = ex.submit(vlib.run_tlc, "ReplicationMC", "Replication.asimpl.quick.cfg", timeout=1200, workers=max(4, vlib.NCPU // 2 - 2))
+        r, r2 = f1.result(), f2.result()
     vlib.tlc_must_pass(r, cfg)
     stats = {"cfg": cfg, "generated": r["generated"], "distinct": r["distinct"], "depth": r["depth"], "wall_s": round(r["wall_s"], 1)}
+    vlib.tlc_must_pass(r2, "Replication.asimpl.quick.cfg")
+    stats["as_implemented_F-C05-1"] = {"cfg": "Replication.asimpl.quick.cfg", "generated": r2["generated"], "distinct": r2["distinct"],
+                                       "depth": r2["depth"], "wall_s": round(r2["wall_s"], 1)}
     base = open(os.path.join(vlib.SPECS, "cfg", "Replication.exh.quick.cfg")).read()
     tmp = vlib.scratch("c05cfg")
     caught = {}
     try:
-        for dev, inv in DEVS.items():
+        for dev, (inv, consts) in DEVS.items():
             p = os.path.join(tmp, "dev.cfg")
-            open(p, "w").write(base.replace("Dev = {}", "Dev = " + dev))
-            rr = vlib.run_tlc("ReplicationMC", p, timeout=600, workers=4)
+            txt = base.replace("Dev = {}", "Dev = " + dev)
+            for k, v in consts.items():
+                txt = re.sub(r"(?m)^  %s = .*$" % k, f"  {k} = {v}", txt)
+            if consts:       # a deviation that needs the clock: only the invariant / property it is meant to break
+                txt = re.sub(r"(?m)^INVARIANTS .*$", "INVARIANTS TimerSane" + ("" if inv == "HealthyTickResets" else " " + inv), txt)
+                if inv != "HealthyTickResets":
+                    txt = re.sub(r"(?m)^PROPERTIES .*\n", "", txt)
+            open(p, "w").write(txt)
+            rr = vlib.run_tlc("ReplicationMC", p, timeout=900, workers=4)
             if rr["violated"] != inv:
                 raise vlib.Infra(f"deviation {dev} should violate {inv} in Replication.tla, TLC says {rr['violated']} / {rr['error']}")
             caught[dev] = inv
+        # the directed family "timer" exists because of the seed, not because of F-C05-2: with the as-implemented deviations alone
+        # no behaviour whose outages are separated by a healthy tick loses anything after a short absence
+        p = os.path.join(tmp, "nodev.cfg")
+        open(p, "w").write(open(os.path.join(vlib.SPECS, "cfg", "Replication.dir.timer.cfg")).read().replace("Dev = " + SEED, "Dev = " + IMPL))
+        rr = vlib.run_tlc("ReplicationMC", p, timeout=900, workers=4)
+        if rr["violated"] or rr["error"] or not rr["finished"]:
+            raise vlib.Infra(f"as-implemented model under PatientHealthy should satisfy ShortOutageReadAnyReplica, TLC says {rr['violated']} / {rr['error']}")
+        stats["as_implemented_healthy_tick_between"] = {"distinct": rr["distinct"], "generated": rr["generated"], "violated": None}
     finally:
         shutil.rmtree(tmp, ignore_errors=True)
     stats["deviations_caught"] = caught
@@ -61,7 +91,7 @@ def mode_a(tier):
 
 def short(s):
     ab = {"Write": "W", "Kill": "K", "Restart": "R", "Flush": "F", "Query": "Q", "Bulk": "Bulk", "WaitTrunc": "Trunc", "Sleep": "Sleep"}
-    return " ".join(ab.get(e["a"], e["a"]) + (str(e["w"]) if e["a"] == "Write" else (e["r"][0] if e["a"] == "Kill" else "")) +
+    return " ".join(ab.get(e["a"], e["a"]) + (str(e["w"]) if e["a"] == "Write" else (e["r"][0] if e["a"] == "Kill" else (f"({e['r']})" if e["a"] == "Tick" else ""))) +
                     ("*" if e["a"] == "Kill" and e["f"] else "") for e in s)
 
 
@@ -97,6 +127,74 @@ def gen_schedules(n, seed):
 
 
 # ---------------------------------------------------------------------------------------------------
+# directed schedule families: TLC's counterexample of a timer deviation, exported by ReplicationMC (ExportTimer), made concrete
+
+TIMER_TOLERATE_S = 90      # TolerateTime = 1 ticker period in the model: strictly between one and two periods of the real ticker
+TIMER_CONF = {"data": {"clear-entryLog-tolerate-time": '"%ds"' % TIMER_TOLERATE_S}, "logging": {"level": '"info"'}}
+FAMILIES = {"timer": "Replication.dir.timer.cfg",        # mutation seed outage_timer_not_reset: outages separated by a healthy tick
+            "rolling": "Replication.dir.rolling.cfg"}    # as implemented (F-C05-2): no healthy tick between the outages
+
+
+def gen_directed(family):
+    """BFS (one worker: deterministic) under the deviation; the first behaviour in which a member that was away for less than
+    TolerateTime is back, caught up and answers without acknowledged writes (ShortOutageReadAnyReplica) is the schedule"""
+    cfg = FAMILIES[family]
+    r = vlib.run_tlc("ReplicationMC", cfg, timeout=900, workers=1)
+    if r["violated"] != "ExportTimer" or not r["traces"] or r["error"]:
+        raise vlib.Infra(f"directed schedule family {family}: TLC should export the counterexample of {cfg}: {r['violated']} / {r['error']}\n" + r["out"][-1500:])
+    hist = r["traces"][0]
+    cap = int(re.search(r"MaxHist = (\d+)", open(os.path.join(vlib.SPECS, "cfg", cfg)).read()).group(1))
+    if len(hist) >= cap:
+        raise vlib.Infra(f"directed schedule family {family}: the exported history fills MaxHist = {cap} (truncated)")
+    return concretise(hist, family), {"cfg": cfg, "model_hist": short_model(hist), "distinct": r["distinct"], "generated": r["generated"],
+                                      "wall_s": round(r["wall_s"], 1)}
+
+
+def short_model(hist):
+    return " ".join(e["a"] + (str(e["w"]) if e["a"] == "Write" else "") + (f"({e['r']})" if e["r"] != "-" else "") for e in hist)
+
+
+def concretise(hist, family):
+    """model history -> driver schedule. Rules (no choice is made here):
+    - consecutive Ticks of the model are consecutive ticks of the real leader; a store killed before a Tick is killed early
+      enough for the leader to see it away at that tick (and for the writes and the flush placed before the tick to finish);
+    - the real entry log is cleaned by whole 32 MB files: the writes that the model places between a Kill and the Tick at which
+      it forces the clean are followed by Bulk padding, so that the file rotates before the flush;
+    - one Flush of the driver flushes every store: the model's per-node flushes collapse;
+    - after the last action the driver waits for the leader to have deleted its first entry file (vacuity guard: enough was
+      written and flushed for a clean to delete something), then the usual closing phase reads every replica."""
+    out = []
+    forced = [i for i, e in enumerate(hist) if e["a"] == "Tick" and e["r"] == "forced"]
+    if not forced or not any(e["a"] == "Tick" and e["r"] == "away" for e in hist[:forced[0]]):
+        raise vlib.Infra(f"directed family {family}: exported history has no away tick followed by a forced tick: {short_model(hist)}")
+    last_kill = max(i for i in range(forced[0]) if hist[i]["a"] == "Kill")
+    tk = 0
+    for i, e in enumerate(hist):
+        a = e["a"]
+        if a == "Write":
+            out.append(act("Write", e["w"], e["c"]))
+            if last_kill < i < forced[0]:
+                out.append(act("Bulk", mb=40))
+        elif a == "Flush":
+            if not (out and out[-1]["a"] == "Flush"):
+                out.append(act("Flush"))
+        elif a == "Kill":
+            nxt = next(j for j in range(i + 1, len(hist)) if hist[j]["a"] == "Tick")
+            work = [x for x in hist[i + 1:nxt] if x["a"] in ("Write", "Flush")]
+            lead = 20.0 + (8.0 if work else 0.0) + (12.0 if last_kill == i else 0.0)      # s before the tick (40 MB of padding: 2 - 10 s)
+            out.append(act("Kill", r=e["r"], lead=lead))
+        elif a == "Restart":
+            out.append(act("Restart"))
+        elif a == "Tick":
+            tk += 1
+            out.append(act("Tick", r=e["r"], n=tk))
+        else:
+            raise vlib.Infra(f"directed family {family}: action {a} of the model has no driver counterpart")
+    out.append(act("WaitTrunc", max_s=TICK + 40))
+    return out
+
+
+# ---------------------------------------------------------------------------------------------------
 # the driver
 
 class Died(Exception):
@@ -110,6 +208,7 @@ class Driver:
         self.cl = cl
         self.rnd = random.Random(seed)
         self.gen = {1: 0, 2: 0, 3: 0}       # kill generation per store (settle monitors give up when it changes)
+        self.lat = []                       # recent acknowledgement latencies of writes (s)
 
     # -- meta ---------------------------------------------------------------------------------------
     def meta(self):
@@ -196,6 +295,8 @@ class Driver:
         outage = [(0.0, 0.0)]
         lastkill = [0.0]
         info = {"sid": sid, "mst": mst, "patient": patient, "kills": [], "died": None}
+        timed = any(a["a"] == "Tick" for a in sched)     # directed family: actions are placed relative to the leader's clean ticker
+        tk = {"L": None, "pt": None, "expect": None, "last": None, "first_entry": None, "ticks": [], "guards": []}
 
         def add(**e):
             with lock:
@@ -231,6 +332,8 @@ class Driver:
                     st, body = -1, str(ex)
                 if st == 204:
                     add(ev="WAck")
+                    if time.time() - tb < 1.0 and not down:
+                        self.lat.append(time.time() - tb)       # a first-attempt acknowledgement with every store up
                     return True
                 add(ev="WErr", st=st, err=body[:160])
                 if time.time() - tb > WRITE_BUDGET:
@@ -315,15 +418,77 @@ class Driver:
             if self.gen[i] == g and cl.store_alive(i):
                 add(ev="Settled", i=i)
 
-        def do_kill(role, delay=0.0):
+        def next_tick():
+            """when the leader's ticker fires next (ticker started with its raft node, period TICK)"""
+            starts, ticks = cl.clean_ticks(tk["L"])
+            if not starts:
+                raise vlib.Infra(f"store {tk['L']} never logged the start of deleteEntryLogPeriodically (log level info needed)")
+            base = max([starts[-1]] + [x["t"] for x in ticks if x["t"] > starts[-1]])
+            return base + (int((time.time() - base) // TICK) + 1) * TICK
+
+        def entry_watch():
+            """the leader's first raft entry file of this schedule: gone = a ClearEntryLog deleted entries"""
+            if info.get("truncated") or not tk["first_entry"]:
+                return
+            files = cl.entry_files(tk["L"], DB, tk["pt"])
+            if tk["first_entry"] in files:
+                tk["present_t"] = time.time() - t0
+                return
+            info["truncated"] = True
+            add(ev="Note", what=f"entry file {tk['first_entry']} of store {tk['L']} deleted; files now {files}", present_t=round(tk.get("present_t", 0.0), 3))
+
+        def do_tick(a):
+            """the next tick of the leader's clean ticker, as the leader logged it"""
+            exp = tk["expect"] if tk["expect"] else (tk["last"] + TICK if tk["last"] else next_tick())
+            if time.time() > exp - 1.0:
+                tk["guards"].append(f"tick {a['n']}: the actions placed before it ended {time.time() - exp + 1.0:.1f}s too late")
+            entry_watch()
+            got = None
+            while time.time() < exp + 25.0:
+                _, ticks = cl.clean_ticks(tk["L"])
+                cand = [x for x in ticks if abs(x["t"] - exp) < 5.0]
+                if cand and time.time() - cand[0]["t"] > 1.0:      # the lines that follow "delete entry log start" are there
+                    got = cand[0]
+                    break
+                entry_watch()
+                time.sleep(0.3)
+            if got is None:
+                raise vlib.Infra(f"tick {a['n']} of store {tk['L']} expected at +{exp - t0:.0f}s is not in its log")
+            tk["expect"], tk["last"] = None, got["t"]
+            time.sleep(2.0)                 # a proposed ClearEntryLog is committed and applied
+            files = cl.entry_files(tk["L"], DB, tk["pt"])
+            rec = {"n": a["n"], "model": a["r"], "obs": got["obs"], "t": round(got["t"] - t0, 3), "min_index": got["min_index"],
+                   "active": got["active"], "files": files, "down": sorted(down)}
+            tk["ticks"].append(rec)
+            add(ev="Note", what=f"tick {a['n']} of the leader (store {tk['L']}): {got['obs']} (model: {a['r']}), active {got['active']}, "
+                f"ClearEntryLog index {got['min_index']}, entry files {files}", tick=rec)
+            if got["obs"] in ("follower", "nosnap"):
+                tk["guards"].append(f"tick {a['n']}: store {tk['L']} is not the raft leader / has no snapshot ({got['obs']})")
+            elif a["r"] == "healthy" and got["obs"] != "healthy":
+                tk["guards"].append(f"tick {a['n']}: the model's healthy tick was {got['obs']} on the cluster")
+            elif a["r"] == "away" and got["obs"] not in ("away", "forced"):
+                tk["guards"].append(f"tick {a['n']}: the outage did not span the tick ({got['obs']})")
+            entry_watch()
+
+        def do_kill(role, delay=0.0, lead=None, ms=False):
+            """ms: the master store if the caller has looked it up already (a kill fired during a write must not spend the
+            write on asking meta)"""
             if delay:
                 time.sleep(delay)
             if down:
                 return
-            try:
-                ms = self.master_store()
-            except Exception:
-                ms = None
+            if lead is not None:
+                nt = next_tick()
+                if nt - time.time() < lead - 15.0:
+                    tk["guards"].append(f"kill placed {nt - time.time():.0f}s before the tick, {lead:.0f}s wanted")
+                while nt - time.time() > lead:
+                    time.sleep(min(1.0, nt - time.time() - lead))
+                tk["expect"] = nt
+            if ms is False:
+                try:
+                    ms = self.master_store()
+                except Exception:
+                    ms = None
             if role == "leader" and ms:
                 i = ms
             else:
@@ -332,10 +497,10 @@ class Driver:
             self.gen[i] += 1
             # the outage lasts at least this long (the statement's "pauses"): shorter than failure detection, around it, beyond it
             lastkill[0] = time.time()
-            outage[0] = (time.time(), self.rnd.choice([0.0, 0.5, 3.0, 8.0, 14.0, 14.0]))
+            outage[0] = (time.time(), 0.0 if lead is not None else self.rnd.choice([0.0, 0.5, 3.0, 8.0, 14.0, 14.0]))
             add(ev="Kill", i=i, role=role, master=ms, outage=outage[0][1])
             cl.kill_store(i)
-            info["kills"].append({"store": i, "role": role, "was_master": i == ms, "outage_s": outage[0][1]})
+            info["kills"].append({"store": i, "role": role, "was_master": i == ms, "outage_s": outage[0][1], "t": round(time.time() - t0, 3)})
 
         def do_restart(wait):
             if not down:
@@ -346,6 +511,7 @@ class Driver:
             i = down.pop()
             cl.start_store(i)
             add(ev="Restart", i=i)
+            info["kills"][-1]["down_s"] = round(time.time() - t0 - info["kills"][-1].get("t", 0.0), 3)
             th = threading.Thread(target=settle_monitor, args=(i, self.gen[i]), daemon=True)
             th.start()
             monitors.append(th)
@@ -361,6 +527,7 @@ class Driver:
 
         ok = True
         rd = None
+        warm_lost = False
         try:
             # warm-up: creates the series on every replica; new series become searchable after the index flush
             ok = do_write(*plan[0])
@@ -372,13 +539,24 @@ class Driver:
                         break
                 except Exception:
                     pass
-                if time.time() - tb > 60:
-                    raise vlib.Infra(f"warm-up rows of {mst} never became visible: {body}")
+                if time.time() - tb > 90:
+                    # acknowledged, every store up, not readable after 90 s (a new series is searchable after 1-2 s): not a matter of
+                    # lag any more. The judged closing queries decide (TLC rejects a history whose acknowledged rows are missing).
+                    add(ev="Note", what=f"warm-up rows of {mst} acknowledged but not visible after 90s: {str(body)[:200]}; schedule skipped")
+                    warm_lost = True
+                    break
                 time.sleep(0.3)
+            if timed and not warm_lost:
+                tk["L"] = self.master_store()
+                tk["pt"] = self.layout()[0].get(tk["L"])
+                files = cl.entry_files(tk["L"], DB, tk["pt"])
+                if tk["L"] is None or not files:
+                    raise vlib.Infra(f"directed schedule: no master store / no raft entry file ({tk['L']}, {files})")
+                tk["first_entry"] = files[0]
             rd = threading.Thread(target=reader, daemon=True)
             rd.start()
             k = 1
-            n = len(sched)
+            n = 0 if warm_lost else len(sched)
             j = 0
             while ok and j < n:
                 a = sched[j]
@@ -386,9 +564,19 @@ class Driver:
                 check_alive()
                 # a kill that the model places while the preceding write / flush is still in flight runs concurrently
                 killer = None
-                if nxt and nxt["a"] == "Kill" and a["a"] in ("Write", "Flush") and (nxt["f"] or a["a"] == "Flush"):
-                    d = self.rnd.choice([0.0, 0.002, 0.005, 0.01, 0.03, 0.1])
-                    killer = threading.Thread(target=do_kill, args=(nxt["r"], d), daemon=True)
+                if not timed and nxt and nxt["a"] == "Kill" and a["a"] in ("Write", "Flush") and (nxt["f"] or a["a"] == "Flush"):
+                    # SIGKILL at an arbitrary instant OF the write: a uniform draw over the time an acknowledged write has been taking
+                    # on this cluster (4 - 8 ms when idle: routed / proposed / persisted / replicated / committed / applied /
+                    # answered), one time in five shortly after it
+                    if a["a"] == "Write" and self.lat and self.rnd.random() < 0.8:
+                        d = self.rnd.uniform(0.15, 1.0) * sorted(self.lat[-7:])[len(self.lat[-7:]) // 2]
+                    else:
+                        d = self.rnd.choice([0.0, 0.002, 0.005, 0.01, 0.03, 0.1])
+                    try:
+                        ms0 = self.master_store()
+                    except Exception:
+                        ms0 = None
+                    killer = threading.Thread(target=do_kill, args=(nxt["r"], d), kwargs={"ms": ms0}, daemon=True)
                 if a["a"] == "Write":
                     if killer:
                         killer.start()
@@ -403,7 +591,9 @@ class Driver:
                     except Exception:
                         pass
                 elif a["a"] == "Kill":
-                    do_kill(a["r"])
+                    do_kill(a["r"], lead=a.get("lead"))
+                elif a["a"] == "Tick":
+                    do_tick(a)
                 elif a["a"] == "Restart":
                     do_restart(wait=patient)
                 elif a["a"] == "Query":
@@ -427,17 +617,28 @@ class Driver:
                     add(ev="Note", what=f"{a['mb']} MB of padding acknowledged")
                 elif a["a"] == "WaitTrunc":
                     # until the master's store has deleted its first raft entry file (ClearEntryLog applied)
-                    ms = self.master_store()
-                    pts, _, _ = self.layout()
-                    ed = os.path.join(cl.dir, f"n{ms}", "data", "wal", DB, str(pts[ms]), "__raft_entries__")
-                    first = sorted(f for f in os.listdir(ed) if f.endswith(".entry"))[0]
-                    tb = time.time()
-                    while os.path.exists(os.path.join(ed, first)) and time.time() - tb < a["max_s"]:
-                        time.sleep(1.0)
-                    gone = not os.path.exists(os.path.join(ed, first))
-                    info["truncated"] = gone
-                    add(ev="Note", what=f"entry file {first} of store {ms} " + ("deleted" if gone else "still there") +
-                        f" after {time.time() - tb:.0f}s; files now {sorted(os.listdir(ed))}")
+                    if timed:
+                        tb = time.time()
+                        while not info.get("truncated") and time.time() - tb < a["max_s"]:
+                            entry_watch()
+                            time.sleep(1.0)
+                        if not info.get("truncated"):
+                            add(ev="Note", what=f"entry file {tk['first_entry']} of store {tk['L']} still there after {time.time() - tb:.0f}s; "
+                                f"files now {cl.entry_files(tk['L'], DB, tk['pt'])}")
+                    else:
+                        ms = self.master_store()
+                        pts, _, _ = self.layout()
+                        ed = os.path.join(cl.dir, f"n{ms}", "data", "wal", DB, str(pts[ms]), "__raft_entries__")
+                        first = sorted(f for f in os.listdir(ed) if f.endswith(".entry"))[0]
+                        tb = time.time()
+                        seen = time.time() - t0
+                        while os.path.exists(os.path.join(ed, first)) and time.time() - tb < a["max_s"]:
+                            seen = time.time() - t0
+                            time.sleep(1.0)
+                        gone = not os.path.exists(os.path.join(ed, first))
+                        info["truncated"] = gone
+                        add(ev="Note", what=f"entry file {first} of store {ms} " + ("deleted" if gone else "still there") +
+                            f" after {time.time() - tb:.0f}s; files now {sorted(os.listdir(ed))}", present_t=round(seen, 3))
                 if killer:
                     killer.join()
                     j += 1
@@ -475,6 +676,11 @@ class Driver:
                 down.discard(i)
         if not ok and not info["died"]:
             info["diag"] = self.diagnose()
+        info["warm_lost"] = warm_lost
+        if timed:
+            info["ticks"] = tk["ticks"]
+            info["tick_leader"] = tk["L"]
+            info["guards"] = tk["guards"]
         info.update({"events": ev, "sched": sched, "ok_run": ok, "wall_s": round(time.time() - t0, 1)})
         return info
 
@@ -639,12 +845,24 @@ def negative_controls(good):
 # ---------------------------------------------------------------------------------------------------
 # known findings: deviation models
 
-def f_c05_1(r, k):
-    """F-C05-1 (deviation "truncate_past_down_member"). Predicate: the leader deleted raft entry files while store D was
-    down (D was killed before, not restarted until after the deletion), and event k is the answer of a read DIRECTED at D.
+def tolerate_s(r):
+    """clear-entryLog-tolerate-time of the cluster the history was recorded on (default 6h)"""
+    v = ((r.get("extra_conf") or {}).get("data") or {}).get("clear-entryLog-tolerate-time")
+    if not v:
+        return 6 * 3600.0
+    m = re.match(r'"?(\d+(?:\.\d+)?)(ms|s|m|h)"?$', v.strip())
+    if not m:
+        return 6 * 3600.0
+    return float(m.group(1)) * {"ms": 0.001, "s": 1.0, "m": 60.0, "h": 3600.0}[m.group(2)]
+
+
+def skipped_by_clean(r, k):
+    """Common part of the deviation models of F-C05-1 / F-C05-2. Predicate: the leader deleted raft entry files while store D
+    was down (D was killed before, not restarted until after the deletion), and event k is the answer of a read DIRECTED at D.
     Prediction: D holds exactly the writes acknowledged before it was killed and the writes begun after the flush whose
     snapshot index became the truncation point; every write begun after the kill and acknowledged before that flush is
-    missing on D. Anything else (another replica, other rows) is not this finding."""
+    missing on D. Anything else (another replica, other rows) matches no finding.
+    Returns None or {D, down_s / down_hi: how long D had been down when the entry file was last seen / was seen gone, ...}."""
     ev = r["events"]
     e = ev[k]
     if e["ev"] != "QEnd" or not r.get("truncated"):
@@ -691,13 +909,63 @@ def f_c05_1(r, k):
     got = {c: v for c, v in e["rows"]}
     if got != pred or pred == latest or not missing:
         return None
-    return (f"read directed at store {D} (down {ev[it]['t'] - ev[ik]['t']:.0f}s when the leader truncated its entry log) returns exactly the "
-            f"writes acknowledged before its kill and after the truncation point; writes {missing} (acknowledged while it was down, "
-            f"older than the truncation point) are missing on it for good: {len(latest) - len([c for c in latest if got.get(c) == latest[c]])} "
-            f"of {len(latest)} cells stale or absent")
+    # the clean happened after the file was last seen (present_t; histories recorded before that field: the 1 s poll + slack)
+    seen = ev[it].get("present_t")
+    if seen is None:
+        seen = ev[it]["t"] - 2.0
+    # D had been down for at least down_s (file still seen) and at most down_hi (file seen gone) when the leader cleaned
+    return {"D": D, "down_s": seen - ev[ik]["t"], "down_hi": ev[it]["t"] - ev[ik]["t"], "missing": missing, "latest": latest, "got": got,
+            "it": it, "ik": ik}
 
 
-DEVIATION_MODELS = {"F-C05-1": f_c05_1}
+def _stale(x):
+    return len(x["latest"]) - len([c for c in x["latest"] if x["got"].get(c) == x["latest"][c]])
+
+
+def f_c05_1(r, k):
+    """F-C05-1 (deviation "truncate_past_down_member"): skipped_by_clean, and D had been continuously down for LONGER than
+    clear-entryLog-tolerate-time when the leader cleaned (a shorter absence is not this finding)."""
+    x = skipped_by_clean(r, k)
+    if not x or not x["down_s"] > tolerate_s(r):
+        return None
+    return (f"read directed at store {x['D']} (down {x['down_s']:.0f}s > tolerate time {tolerate_s(r):.0f}s when the leader truncated its entry log) returns exactly the "
+            f"writes acknowledged before its kill and after the truncation point; writes {x['missing']} (acknowledged while it was down, "
+            f"older than the truncation point) are missing on it for good: {_stale(x)} of {len(x['latest'])} cells stale or absent")
+
+
+def f_c05_2(r, k):
+    """F-C05-2 (deviation "outage_timer_per_group"): skipped_by_clean, D had been down for LESS than the tolerate time, and the
+    leader's own tick log shows the rolling outage: the tick that cleaned was `forced`; going back from it every tick saw a
+    member away, up to an arming tick more than the tolerate time earlier at which D was still alive (another outage, or an
+    earlier one of D, armed the timer); no tick in between saw everybody present. A healthy tick in between = not this finding."""
+    x = skipped_by_clean(r, k)
+    if not x or not x["down_hi"] < tolerate_s(r):
+        return None
+    ev = r["events"]
+    ticks = [(i, e["tick"]) for i, e in enumerate(ev) if e["ev"] == "Note" and e.get("tick")]
+    # the forced tick while D was down, not later than the moment the entry file was seen gone (times of the leader's log)
+    fi = [j for j, (i, t) in enumerate(ticks) if t["obs"] == "forced" and ev[x["ik"]]["t"] < t["t"] <= ev[x["it"]]["t"] + 2.0]
+    if len(fi) != 1:
+        return None
+    j = fi[0]
+    a = j
+    while a > 0 and ticks[a - 1][1]["obs"] == "away" and abs(ticks[a][1]["t"] - ticks[a - 1][1]["t"] - TICK) < 5.0:
+        a -= 1
+    if a == j:
+        return None                              # forced at the very tick that armed the timer: not predicted by this model
+    if a > 0 and ticks[a - 1][1]["obs"] not in ("healthy", "forced", "nosnap", "follower"):
+        return None
+    arm, forced = ticks[a][1], ticks[j][1]
+    if not forced["t"] - arm["t"] > tolerate_s(r) or ticks[a][0] > x["ik"] or x["D"] in arm["down"] and not any(
+            e["ev"] == "Restart" and e["i"] == x["D"] for e in ev[ticks[a][0]:x["ik"]]):
+        return None
+    return (f"read directed at store {x['D']} (down only {x['down_hi']:.0f}s < tolerate time {tolerate_s(r):.0f}s when the leader truncated its entry log: "
+            f"the leader's outage timer was armed {forced['t'] - arm['t']:.0f}s earlier by the outage of store(s) {arm['down']} and every tick since saw "
+            f"some member away) returns exactly the writes acknowledged before its kill and after the truncation point; writes {x['missing']} "
+            f"are missing on it for good: {_stale(x)} of {len(x['latest'])} cells stale or absent")
+
+
+DEVIATION_MODELS = {"F-C05-1": f_c05_1, "F-C05-2": f_c05_2}
 
 
 def judge(r, open_ids):
@@ -729,9 +997,41 @@ def judge(r, open_ids):
 # ---------------------------------------------------------------------------------------------------
 
 def plan(tier):
+    # directed: (name, schedule | None = exported by TLC at run time, cluster configuration)
     if tier == "quick":
-        return {"clusters": 4, "per_cluster": 2, "directed": [("follower", LONG_DOWN)]}
-    return {"clusters": 6, "per_cluster": 9, "directed": [("follower", LONG_DOWN), ("leader", LONG_DOWN_L)]}
+        fam = os.environ.get("C05_FAMILIES", "timer").split(",")
+        # the directed timer schedule lasts four ticker periods: the generic clusters use that time (6 schedules of ~30 s each)
+        return {"clusters": 4, "per_cluster": 6, "directed": [("follower", LONG_DOWN, LONG_DOWN_CONF)] + [(f, None, TIMER_CONF) for f in fam if f in FAMILIES]}
+    fam = os.environ.get("C05_FAMILIES", "timer,rolling").split(",")
+    return {"clusters": 6, "per_cluster": 9, "directed": [("follower", LONG_DOWN, LONG_DOWN_CONF), ("leader", LONG_DOWN_L, LONG_DOWN_CONF)] +
+            [(f, None, TIMER_CONF) for f in fam if f in FAMILIES]}
+
+
+def check_guards(r):
+    """vacuity guards of a directed timer schedule: it was driven as the model's behaviour says (else the run proves nothing: exit 2)"""
+    g = list(r.get("guards") or [])
+    ticks = r.get("ticks") or []
+    want = [a for a in r["sched"] if a["a"] == "Tick"]
+    if r["died"] or not r["ok_run"] or r.get("warm_lost"):
+        return g                       # judged as it is
+    if len(ticks) != len(want):
+        g.append(f"{len(ticks)} of {len(want)} ticks observed")
+        return g
+    for x, y in zip(ticks, ticks[1:]):
+        if abs(y["t"] - x["t"] - TICK) > 5.0:
+            g.append(f"ticks {x['n']} and {y['n']} are {y['t'] - x['t']:.0f}s apart")
+    tol = tolerate_s(r)
+    fm = [i for i, a in enumerate(want) if a["r"] == "forced"]
+    aw = [i for i, a in enumerate(want) if a["r"] == "away"]
+    if fm and aw and not ticks[fm[0]]["t"] - ticks[aw[0]]["t"] > tol:
+        g.append("the tick of the second outage is not more than the tolerate time after the first outage's tick")
+    if not r["kills"] or not r["kills"][-1].get("down_s") or not r["kills"][-1]["down_s"] < tol:
+        g.append(f"the last outage was not shorter than the tolerate time: {r['kills'][-1:]}")
+    if fm and r["kills"] and not (r["kills"][-1]["t"] < ticks[fm[0]]["t"] < r["kills"][-1]["t"] + r["kills"][-1].get("down_s", 0)):
+        g.append("the last outage did not span the tick at which the model forces the clean")
+    if not r.get("truncated"):
+        g.append("the leader never deleted its first raft entry file (not enough written / flushed for a clean to matter)")
+    return g
 
 
 def run(tier, seed):
@@ -739,16 +1039,25 @@ def run(tier, seed):
     pl = plan(tier)
     n = pl["clusters"] * pl["per_cluster"]
     vcluster.build_cluster()
-    scheds, gstat = gen_schedules(n, seed)
+    with cf.ThreadPoolExecutor(4) as ex:           # the three generator runs of TLC side by side
+        fg = ex.submit(gen_schedules, n, seed)
+        fd = {name: ex.submit(gen_directed, name) for name, sch, _ in pl["directed"] if sch is None}
+        scheds, gstat = fg.result()
+        dstat = {}
+        directed = []
+        for name, sch, conf in pl["directed"]:
+            if sch is None:
+                sch, dstat[name] = fd[name].result()
+            directed.append((name, sch, conf))
     rnd = random.Random(seed)
     items = [(sid, s, rnd.random() < 0.5) for sid, s in enumerate(scheds)]
     chunks = [items[c::pl["clusters"]] for c in range(pl["clusters"])]
     results, infra = [], []
-    with cf.ThreadPoolExecutor(pl["clusters"] + len(pl["directed"]) + 1) as ex:
+    with cf.ThreadPoolExecutor(pl["clusters"] + len(directed) + 1) as ex:
         fa = ex.submit(mode_a, tier)           # TLC on the design model runs beside the cluster runs
-        futs = [ex.submit(run_cluster, c, chunks[c], seed) for c in range(pl["clusters"])]
-        # directed: the TLC counterexample of deviation truncate_past_down_member, made concrete, on its own cluster
-        futs += [ex.submit(run_cluster, 90 + i, [(9000 + i, sch, True)], seed, LONG_DOWN_CONF) for i, (_, sch) in enumerate(pl["directed"])]
+        # directed (each on its own cluster, the long ones first): TLC counterexamples of the truncation deviations, made concrete
+        futs = [ex.submit(run_cluster, 90 + i, [(9000 + i, sch, True)], seed, conf) for i, (_, sch, conf) in enumerate(directed)]
+        futs += [ex.submit(run_cluster, c, chunks[c], seed) for c in range(pl["clusters"])]
         for f in futs:
             try:
                 results += f.result()
@@ -758,6 +1067,10 @@ def run(tier, seed):
     vcluster.remove_private_binaries()
     if infra:
         raise vlib.Infra(f"{len(infra)} cluster(s) failed: " + infra[0][:3000])
+    fam_of = {9000 + i: name for i, (name, _, _) in enumerate(directed)}
+    vac = [f"{fam_of[r['sid']]}: {g}" for r in results if r["sid"] in fam_of and fam_of[r["sid"]] in FAMILIES for g in check_guards(r)]
+    if vac:
+        raise vlib.Infra("directed schedule not driven as the model's behaviour says (vacuous): " + "; ".join(vac)[:3000])
     open_ids = {f["id"] for f in vlib.load_known(PROP)}
     bad, good, known_notes = [], [], []
     for r in results:
@@ -794,8 +1107,11 @@ def run(tier, seed):
             path = vlib.save_replay(PROP, {"result": r})
             print(f"VIOLATION property={PROP} replay={path}")
             vlib.log(r["detail"][:3000])
-    directed = [{"schedule": short(r["sched"]), "truncated": r.get("truncated"), "wall_s": r["wall_s"],
-                 "attributed": [fid for rr, fid, _ in known_notes if rr is r]} for r in results if r["sid"] >= 9000]
+    dres = [{"family": fam_of.get(r["sid"]), "schedule": short(r["sched"]), "truncated": r.get("truncated"), "wall_s": r["wall_s"],
+             "attributed": [fid for rr, fid, _ in known_notes if rr is r],
+             "ticks": [{k: t[k] for k in ("n", "model", "obs", "t", "min_index", "down", "files")} for t in r.get("ticks", [])],
+             "outages_s": [k.get("down_s") for k in r["kills"]], "tolerate_s": tolerate_s(r),
+             "verdict": "VIOLATION" if any(r is b for b in bad) else "accepted"} for r in results if r["sid"] >= 9000]
     evs = [e for r in results for e in r["events"]]
     cnt = lambda name: sum(1 for e in evs if e["ev"] == name)
     kills = [k for r in results for k in r["kills"]]
@@ -811,8 +1127,8 @@ def run(tier, seed):
         "replica_directed_reads": cnt("Switch"), "flushes": cnt("Flush"),
         "clusters": pl["clusters"], "boot_s": sorted({r["boot_s"] for r in results}),
         "schedule_wall_s": [r["wall_s"] for r in results],
-        "directed_truncation": directed, "known_finding_observations": len(known_notes),
-        "generator": gstat, "trace_validation": tstats, "negative_controls": neg, "tlc": {"design": a},
+        "directed_truncation": dres, "known_finding_observations": len(known_notes),
+        "generator": gstat, "directed_generator": dstat, "trace_validation": tstats, "negative_controls": neg, "tlc": {"design": a},
         "exhaustive": False,
     }
     vlib.write_evidence(PROP, tier, seed, "model_checking", cov, time.time() - t0, nbad, [
@@ -824,6 +1140,8 @@ def run(tier, seed):
         "one sequential writer: the order of writes to a cell is the client's program order; a failed attempt is retried with the same batch",
         "a replica-directed read is issued 1s after /modifyRepDBMasterPt moved the master partition",
         "meta nodes and the sql node are never killed; no network partitions (outside the statement)",
+        f"directed timer schedules: one ticker period of the model = {TICK:.0f}s of the leader's deleteEntryLogPeriodically ticker (read from the leader's own "
+        f"log), TolerateTime = 1 of the model = clear-entryLog-tolerate-time {TIMER_TOLERATE_S}s; one timing per schedule; the leader is never killed in them",
     ])
     return 1 if nbad else 0
 
